@@ -1,6 +1,7 @@
 import Cbor.Props.C02
 import Cbor.Props.C08
 import Cbor.Props.C07
+import Cbor.Lemmas.LoadSafe
 /-!
 # C01 — decoding arbitrary bytes is memory-safe, assertion-clean and always terminates
 
@@ -48,6 +49,15 @@ theorem C01_load_outcome (src : Array UInt8) (hsz : src.size < 2 ^ 56) (L : Nat)
     refine ⟨h.2.2, Or.inr ⟨h.1, ?_⟩⟩
     rw [h.2.1]
     cases e <;> simp [Lemmas.Refine.codeOf]
+
+/-- **Every allocation schedule.**  The same two-outcome, fault-free guarantee for *every* allocator oracle — every
+choice of which of the builder's requests are refused (`Lemmas.Safe.load_safe`: an invariant on the decoding stack
+preserved by every builder callback whatever the allocator answers, the cascade of completed containers bounded by
+the stack height, the loop bounded by the bytes left). -/
+theorem C01_load_any_allocator (ω : Oracle) (L : Nat) (r0 : LoadResult) (src : Array UInt8) (hsz : src.size < 2 ^ 64 - 1) :
+    let o := Model.load ω L r0 src
+    o.fault = false ∧ ((∃ x, o.item = some x ∧ o.result.code = .none) ∨ (o.item = none ∧ o.result.code ≠ .none)) :=
+  Lemmas.Safe.load_safe ω L r0 src hsz
 
 /-- on success the bytes consumed are at least one and never exceed the buffer -/
 theorem C01_read_inside (src : Array UInt8) (hsz : src.size < 2 ^ 56) (L : Nat) (r0 : LoadResult) (t : Spec.Item)
